@@ -61,12 +61,22 @@ def job_world(args):
     from sim import gen, driver
     kind, payload = args
     try:
+        trace = False
         if kind == 'seed':
             run_seed, tier = payload
             plan = gen.gen_plan(run_seed, tier=tier)
+        elif kind == 'traced':
+            run_seed, tier = payload
+            plan = gen.gen_plan(run_seed, tier=tier)
+            trace = True
         else:
             plan = payload
-        r = driver.run_world(plan)
+        if trace:
+            os.environ['VERIF_TRACE'] = '1'
+        try:
+            r = driver.run_world(plan)
+        finally:
+            os.environ.pop('VERIF_TRACE', None)
         r['ok'] = True
         if r['violations']:
             r['plan'] = plan
@@ -163,6 +173,8 @@ class Agg:
         self.exec_runs = 0
         self.real_runs = 0
         self.digests = {}
+        self.lines = set()
+        self.traced_worlds = 0
 
     def add_world(self, r):
         if not r.get('ok'):
@@ -192,6 +204,9 @@ class Agg:
         if len(self.samples) < 3 and r['evaluations'] > 3:
             self.samples.append(r['sample'])
         self.digests[r['run_seed']] = r['digest']
+        if r.get('lines'):
+            self.lines |= r['lines']
+            self.traced_worlds += 1
 
     def add_exec(self, r):
         if not r.get('ok'):
@@ -353,7 +368,7 @@ def make_pool(workers):
     return ProcessPoolExecutor(max_workers=workers, mp_context=ctx)
 
 
-def run_tier(tier, seed, workers, budget_s, n_worlds, n_exec, n_real, quiet=False):
+def run_tier(tier, seed, workers, budget_s, n_worlds, n_exec, n_real, n_traced=0):
     from sim import gen
     _import_target()
     t0 = time.time()
@@ -372,6 +387,8 @@ def run_tier(tier, seed, workers, budget_s, n_worlds, n_exec, n_real, quiet=Fals
                 futs[ex.submit(job_exec, spec)] = 'exec'
             for p in gen.floor_plans(seed, tier):
                 futs[ex.submit(job_world, ('plan', p))] = 'world'
+            for j in range(n_traced):
+                futs[ex.submit(job_world, ('traced', (seed * 1000003 + 800000 + j, tier)))] = 'world'
             i = 0
             submitted = 0
             pending_cap = workers * 3
@@ -458,6 +475,32 @@ EXPECTED_PROBES = ['srm_flip', 'skin_asymptote_flip', 'revisit', 'near_then_far'
                    'multi_media_far_field', 'sweep_negative_increment']
 
 
+def executable_lines(path):
+    src = open(path).read()
+    lines = set()
+    todo = [compile(src, path, 'exec')]
+    while todo:
+        co = todo.pop()
+        for _, _, ln in co.co_lines():
+            if ln:
+                lines.add(ln)
+        for c in co.co_consts:
+            if hasattr(c, 'co_lines'):
+                todo.append(c)
+    return lines
+
+
+def lines_report(agg):
+    if not agg.lines:
+        return dict(traced_worlds=0, note='line tracing (sys.settrace) runs in the thorough tier only')
+    rep = dict(traced_worlds=agg.traced_worlds)
+    for mod in ('mininec.py', 'pulse.py', 'segment.py', 'taper.py', 'util.py'):
+        ex = executable_lines(os.path.join(REPO, 'mininec', mod))
+        got = set(l for f, l in agg.lines if f == mod) & ex
+        rep[mod] = dict(reached=len(got), executable=len(ex))
+    return rep
+
+
 def write_evidence(agg, tier, seed, wall, nviol, nknown, selftest):
     hours = max(agg.wall_search, 1e-9) / 3600.0
     cov = dict(
@@ -500,6 +543,7 @@ def write_evidence(agg, tier, seed, wall, nviol, nknown, selftest):
                   'process boundary (fork from a pristine template; real exec only in exec-level runs)',
                   'BLAS thread count (pinned to 1)']),
         selftest=selftest,
+        lines_reached=lines_report(agg),
         harness_errors=len(agg.errors),
         known_findings_matched=nknown,
     )
@@ -524,13 +568,13 @@ def write_evidence(agg, tier, seed, wall, nviol, nknown, selftest):
 def cmd_check(tier, seed, workers):
     t0 = time.time()
     if tier == 'quick':
-        n_worlds = int(os.environ.get('VERIF_WORLDS', 500))
+        n_worlds = int(os.environ.get('VERIF_WORLDS', 1500))
         budget = float(os.environ.get('VERIF_BUDGET_S', 0)) or None
-        n_exec, n_real, n_det = 8, 4, 12
+        n_exec, n_real, n_det, n_traced = 24, 6, 12, 0
     else:
         n_worlds = int(os.environ.get('VERIF_WORLDS', 10 ** 9))
         budget = float(os.environ.get('VERIF_BUDGET_S', 1200))
-        n_exec, n_real, n_det = 140, 24, 64
+        n_exec, n_real, n_det, n_traced = 140, 24, 64, 48
     print('C14 tier=%s VERIF_SEED=%d workers=%d repo=%s' % (tier, seed, workers, REPO))
     sys.stdout.flush()
     if os.environ.get('VERIF_SKIP_SELFTEST'):
@@ -540,7 +584,7 @@ def cmd_check(tier, seed, workers):
     if not st.get('ok'):
         print('HARNESS ERROR: determinism self-test failed: %r' % (st,))
         return 2
-    agg = run_tier(tier, seed, workers, budget, n_worlds, n_exec, n_real)
+    agg = run_tier(tier, seed, workers, budget, n_worlds, n_exec, n_real, n_traced)
     nviol, nknown = report_violations(agg)
     wall = time.time() - t0
     ev = write_evidence(agg, tier, seed, wall, nviol, nknown, dict(determinism=st))
